@@ -98,6 +98,36 @@ class _Normalise(ast.NodeTransformer):
             out.append(ast.copy_location(ast.Assign(targets=[ast.Name(id=t.id, ctx=ast.Store())], value=elt, type_comment=None), node))
         return out
 
+    def visit_If(self, node):
+        """`if (x := E) OP ...:` with the assignment expression as the first thing the test evaluates is `x = E` followed by
+        `if x OP ...:` (same evaluation order; an `elif` is an `if` inside the else arm, where the assignment then stands)."""
+        self.generic_visit(node)
+        holder, field, idx = None, None, None
+        cur, parent = node.test, (node, 'test', None)
+        while True:
+            if isinstance(cur, ast.NamedExpr):
+                break
+            if isinstance(cur, ast.BoolOp):
+                parent, cur = (cur, 'values', 0), cur.values[0]
+            elif isinstance(cur, ast.Compare):
+                parent, cur = (cur, 'left', None), cur.left
+            elif isinstance(cur, ast.UnaryOp):
+                parent, cur = (cur, 'operand', None), cur.operand
+            elif isinstance(cur, ast.BinOp):
+                parent, cur = (cur, 'left', None), cur.left
+            else:
+                return node
+        if not isinstance(cur.target, ast.Name):
+            return node
+        holder, field, idx = parent
+        load = ast.copy_location(ast.Name(id=cur.target.id, ctx=ast.Load()), cur)
+        if idx is None:
+            setattr(holder, field, load)
+        else:
+            getattr(holder, field)[idx] = load
+        assign = ast.copy_location(ast.Assign(targets=[ast.copy_location(ast.Name(id=cur.target.id, ctx=ast.Store()), cur)], value=cur.value, type_comment=None), node)
+        return [assign, node]
+
     def visit_For(self, node):
         """`for T in map(f, xs): BODY` is `for _m in xs: T = f(_m); BODY`: map is lazy, so f is applied to each element right
         before the body runs for it, in order."""
@@ -369,6 +399,9 @@ def _simple_record_class(cls):
             methods[st.name] = st
         elif isinstance(st, ast.Expr) and isinstance(st.value, ast.Constant):
             continue
+        elif (isinstance(st, ast.Assign) and len(st.targets) == 1 and isinstance(st.targets[0], ast.Name) and st.targets[0].id == '__slots__'
+              and (isinstance(st.value, ast.Constant) or (isinstance(st.value, (ast.Tuple, ast.List)) and all(isinstance(e, ast.Constant) for e in st.value.elts)))):
+            continue        # __slots__ = ('a', 'b'): only how the record stores its fields
         else:
             return None
     if '__init__' not in methods or any(n.startswith('__') and n != '__init__' for n in methods):
@@ -472,7 +505,8 @@ def _scalar_replace(fn, classes):
     object is replaced by one local per attribute and its methods are inlined (the object never escapes, so nothing else can
     observe the difference).  Returns True when fn was rewritten."""
     changed = False
-    for st in list(fn.body):
+    # the construction may stand anywhere in the function (e.g. once per iteration of the item loop), not only at its top level
+    for st in [n for n in _own_nodes(fn) if isinstance(n, ast.Assign)]:
         if not (isinstance(st, ast.Assign) and len(st.targets) == 1 and isinstance(st.targets[0], ast.Name) and isinstance(st.value, ast.Call)
                 and isinstance(st.value.func, ast.Name) and st.value.func.id in classes):
             continue
@@ -562,12 +596,12 @@ class _NoSRA(Exception):
 
 
 # -- a generator function consumed by a for loop -----------------------------------------------------------------------------
-def _own_loop_breaks(body):
-    """Does a loop body contain a `break` that belongs to this loop (not to a nested loop)?"""
+def _own_loop_breaks(body, kinds=(ast.Break,)):
+    """Does a loop body contain a `break` (or another statement of `kinds`) that belongs to this loop (not to a nested loop)?"""
     todo = list(body)
     while todo:
         n = todo.pop()
-        if isinstance(n, ast.Break):
+        if isinstance(n, kinds):
             return True
         if isinstance(n, (ast.For, ast.While, ast.AsyncFor)):
             todo.extend(n.orelse)
@@ -584,6 +618,16 @@ def _inline_generator_loop(fn, loop, funcs):
     runs inside a one-trip loop; a `break` of BODY's own loop is not expressible that way and blocks the rewrite."""
     import copy
     it = loop.iter
+    target = loop.target
+    enum_target, enum_start = None, None
+    if (isinstance(it, ast.Call) and isinstance(it.func, ast.Name) and it.func.id == 'enumerate' and 1 <= len(it.args) <= 2
+            and all(k.arg == 'start' for k in it.keywords) and len(it.args) + len(it.keywords) <= 2
+            and isinstance(target, (ast.Tuple, ast.List)) and len(target.elts) == 2 and isinstance(target.elts[0], ast.Name)):
+        # for I, T in enumerate(g(args)[, start]): g's loop yields exactly once per iteration (checked below), so I counts g's own
+        # iterations: the inlined loop runs over enumerate(<g's iterable>, start)
+        enum_target = target.elts[0]
+        enum_start = it.args[1] if len(it.args) == 2 else (it.keywords[0].value if it.keywords else None)
+        it, target = it.args[0], target.elts[1]
     if loop.orelse or not (isinstance(it, ast.Call) and isinstance(it.func, ast.Name)) or it.keywords or any(isinstance(a, ast.Starred) for a in it.args):
         return None
     g = funcs.get(it.func.id)
@@ -613,6 +657,8 @@ def _inline_generator_loop(fn, loop, funcs):
         return None
     if _own_loop_breaks(loop.body) or _own_loop_breaks(gloop.body):
         return None
+    if enum_target is not None and _own_loop_breaks(gloop.body, (ast.Continue,)):
+        return None               # an iteration of g's loop that yields nothing: the two counters would drift apart
     if any(isinstance(n, (ast.Yield, ast.YieldFrom)) for st in loop.body for n in ast.walk(st)):
         return None
     j = top[0]
@@ -646,14 +692,18 @@ def _inline_generator_loop(fn, loop, funcs):
     new_pre = [ren(st) for st in pre]
     before = [ren(st) for st in gloop.body[:j]]
     after = [ren(st) for st in gloop.body[j + 1:]]
-    bind_t = ast.Assign(targets=[loop.target], value=ren(gloop.body[j]).value.value, type_comment=None)
+    bind_t = ast.Assign(targets=[target], value=ren(gloop.body[j]).value.value, type_comment=None)
     has_continue = any(isinstance(n, ast.Continue) for st in loop.body for n in ast.walk(st))
     inner = list(loop.body)
     if after and has_continue:
         once = ast.For(target=ast.Name(id='_once' + suffix, ctx=ast.Store()), iter=ast.Tuple(elts=[ast.Constant(value=0)], ctx=ast.Load()),
                        body=inner, orelse=[], type_comment=None)
         inner = [once]
-    new_loop = ast.For(target=ren(gloop).target, iter=ren(gloop).iter, body=before + [bind_t] + inner + after, orelse=[], type_comment=None)
+    new_target, new_iter = ren(gloop).target, ren(gloop).iter
+    if enum_target is not None:
+        new_target = ast.Tuple(elts=[enum_target, new_target], ctx=ast.Store())
+        new_iter = ast.Call(func=ast.Name(id='enumerate', ctx=ast.Load()), args=[new_iter] + ([enum_start] if enum_start is not None else []), keywords=[])
+    new_loop = ast.For(target=new_target, iter=new_iter, body=before + [bind_t] + inner + after, orelse=[], type_comment=None)
     out = binds + new_pre + [new_loop]
     for st in out:
         for n in ast.walk(st):
